@@ -576,11 +576,13 @@ where
         text[1] = b':';
         text[2] = b':';
         kani::assume(n >= 3 + runfree);
-        // structured family: `runfree` base64 characters without equal neighbours, then a free tail
+        // structured family: `runfree` CONCRETE pairwise different base64 characters (the parser's work on
+        // them folds to constants), then a free tail
+        const PREFIX: &[u8; 64] = b"ABCDEFGHIJKLMNOPQRSTUVWXYZabcdefghijklmnopqrstuvwxyz0123456789+/";
         let mut i = 0;
         while i < T {
             if i >= 3 && i < 3 + runfree {
-                kani::assume(spec_b64(text[i]) != 0x40 && (i == 3 || text[i] != text[i - 1]));
+                text[i] = PREFIX[(i - 3) % 64];
             }
             i += 1;
         }
